@@ -9,8 +9,16 @@ MD = os.path.join(VERIF, "mutants")
 res_p = os.path.join(MD, "RESULTS.json")
 results = json.load(open(res_p)) if os.path.exists(res_p) else {}
 sel = sys.argv[1:]
+lane, of = 0, 1
+if sel and "/" in sel[0] and sel[0].replace("/", "").isdigit():  # "k/n": every n-th patch starting at k
+    lane, of = map(int, sel[0].split("/"))
+    sel = sel[1:]
+_n = -1
 for fn in sorted(os.listdir(MD)):
     if not fn.endswith(".patch"):
+        continue
+    _n += 1
+    if _n % of != lane:
         continue
     pid = fn.split("-")[0]
     if sel and not any(fn.startswith(s) for s in sel):
